@@ -73,6 +73,9 @@ type Config struct {
 	// Conc: the instance serves concurrent requests (C20): per-request harness bookkeeping that is
 	// not goroutine-safe is switched off and the shipped SMTP and log mailers are in the mail path.
 	Conc bool `json:"conc,omitempty"`
+	// SelfAuth: the application does what remember.Middleware does with its own middleware, calling the
+	// exported remember.Authenticate itself (same semantics; the specification does not read this field)
+	SelfAuth bool `json:"selfAuth,omitempty"`
 	// RegNoWhitelist: the application configured no extra registration fields at all
 	// (defaults.HTTPBodyReader.Whitelist["register"] removed).
 	RegNoWhitelist bool `json:"regNoWhitelist"`
@@ -757,7 +760,19 @@ func New(cfg Config) (*Instance, error) {
 		h = expire.Middleware(ab)(h)
 	}
 	if cfg.Has("remember") {
-		h = remember.Middleware(ab)(h)
+		if cfg.SelfAuth {
+			next := h
+			h = http.HandlerFunc(func(w http.ResponseWriter, r *http.Request) {
+				if id, _ := ab.CurrentUserID(r); len(id) == 0 {
+					if err := remember.Authenticate(ab, w, &r); err != nil {
+						ab.RequestLogger(r).Errorf("application: remember me failed: %+v", err)
+					}
+				}
+				next.ServeHTTP(w, r)
+			})
+		} else {
+			h = remember.Middleware(ab)(h)
+		}
 	}
 	if cfg.Conc {
 		// the recommended application stack: ModuleListMiddleware, then the application's own data
